@@ -107,6 +107,9 @@ def tamper(blob, info, site, rng, attrs):
         flip(hl + cl - 8 + rng.randrange(0, 4))  # the padding field
     elif site == "tag":
         flip(len(b) - 4096 + 32 + rng.randrange(16))
+    elif site == "tag-size":
+        import struct
+        b[len(b) - 8:len(b) - 4] = struct.pack("<I", rng.choice([0, 0, 1, 8, 15, 17, 32]))
     return bytes(b)
 
 
